@@ -4,6 +4,8 @@ pub assume_specification<T: PartialOrd> [<[T] as PartialOrd<[T]>>::lt] (a: &[T],
     ensures r == slice_lt(a@, b@);
 pub assume_specification<T: PartialOrd> [<[T] as PartialOrd<[T]>>::le] (a: &[T], b: &[T]) -> (r: bool)
     ensures r == (slice_lt(a@, b@) || a@ == b@);
+pub assume_specification<T: PartialOrd> [<[T] as PartialOrd<[T]>>::ge] (a: &[T], b: &[T]) -> (r: bool)
+    ensures r == !slice_lt(a@, b@);
 #[verifier::external_body]
 pub proof fn axiom_key_order()
     ensures
